@@ -352,7 +352,14 @@ def check_case(qt, mb, out_bytes, stats, desc):
       sc, zp, qd = q
       nm = og.tname(t)
       if not (np.all(np.isfinite(sc)) and np.all(sc > 0)):
-        V('C04:scale-not-finite-positive', f'sg{gi} {nm}: {sc.tolist()[:4]}')
+        # F25: a calibrated statistic that is itself +-inf/NaN (an activation
+        # overflowed during calibration) yields a non-finite scale; keyed apart
+        # so that a non-finite scale from FINITE statistics is still reported
+        bnm = og.tname(gout.tensors[base(ti)]) if ti in producer or ti < n_orig else nm
+        st = (stats or {}).get(bnm)
+        nonfin = st is not None and not (np.all(np.isfinite(st['min'])) and np.all(np.isfinite(st['max'])))
+        V('C04:scale-not-finite-positive' + (':nonfinite-statistic' if nonfin else ''),
+          f'sg{gi} {nm}: {sc.tolist()[:4]}' + (f' (statistics of {bnm}: {st})' if nonfin else ''))
       bits = {I4: 4, I8: 8, I16: 16, I32: 32, I64: 64}.get(t.type)
       if bits is None:
         V('C04:quantized-tensor-dtype', f'sg{gi} {nm}: dtype {t.type} carries quantization')
@@ -489,9 +496,24 @@ def main():
       stats = gr.own_stats(mb, gg.random_inputs(mb, rng, 1)) if qt.need_calibration else None
       yield mb, qt, stats, desc, dict(info, real_stats=True, directed='shared-const')
 
+  def directed_overflow(n):
+    """calibration data on which a float EXP overflows to +inf (F25)"""
+    done = 0
+    while done < n:
+      mb, info = gg.gen_model(rng, n_subgraphs=1, max_ops=4,
+                              op_weights=['EXP', 'EXP', 'FULLY_CONNECTED', 'ADD', 'TANH'])
+      qt = quantizer.Quantizer(bytearray(mb))
+      desc = gr.apply_rules(qt, [('.*', '*', gr.named_configs()['a8w8'][0], 'a8w8')])
+      stats = gr.own_stats(mb, gg.random_inputs(mb, rng, 1, scale=80.0))
+      if all(np.all(np.isfinite(v['min'])) and np.all(np.isfinite(v['max'])) for v in stats.values()):
+        continue
+      done += 1
+      yield mb, qt, stats, desc, dict(info, real_stats=True, directed='overflowing-calibration')
+
   import itertools
   for mb, qt, stats, desc, info in itertools.chain(
-      cg.gen_cases(rng, n_models), directed_shared(1500 if tier == 'thorough' else 120)):
+      cg.gen_cases(rng, n_models), directed_shared(1500 if tier == 'thorough' else 120),
+      directed_overflow(12 if tier == 'thorough' else 3)):
     dist['cases'] += 1
     if info.get('directed'):
       dist['directed:' + info['directed']] += 1
